@@ -25,6 +25,7 @@ var c09Plan = []planEntry{
 	{spaces.XEol.Without("\t"), 5, 6},
 	{spaces.XList.Without("\t"), 5, 6},
 	{spaces.XHTML, 4, 5},
+	{spaces.XMlRef, 5, 6},
 }
 
 var (
